@@ -246,6 +246,20 @@ CHECKS['C16'] = dict(
     technique='symbolic execution of the Python source + Z3 per path (one inductive step, all paths); concrete whole-run sampling',
 )
 
+CHECKS['C17'] = dict(
+    level='model_checking',
+    text='PARTIAL CLAIM - first clause only (no out-of-bounds index). The 47 @jit kernels and their callers (Arm FK / FKLink / FKJoint / '
+         'Jacobians for every link index, SP IK / FK, tm conversions) are executed SYMBOLICALLY from their Python source with the valid symbolic '
+         'arguments of the C02 / C05 / C06 / C09 / C10 drivers (+ a helper driver): an integer index outside [-n, n) raises IndexError exactly '
+         'where NUMBA_BOUNDSCHECK=1 would, on every feasible path including the value-dependent branches (NearZero, pure translation, half '
+         'turns) that no concrete input of the test-suite reaches. Per-kernel execution counts and the kernels no driver reaches (quick: the '
+         'three IK solvers) are listed in the evidence. Counterexamples are replayed on the interpreted source (NUMBA_DISABLE_JIT=1). The '
+         'second clause (compiled kernel = interpreted source for C/F-ordered, sliced, integer-typed arguments) concerns machine code and numba '
+         'typing: outside symbolic reach, NOT claimed.',
+    design='5/C17',
+    technique='symbolic execution of the kernels\' Python source + Z3 path feasibility (bounded: driver shapes, n <= 3 joints); second clause not applicable',
+)
+
 NOT_APPLICABLE = {
 }
 
